@@ -546,11 +546,19 @@ def module_constants(tree: ast.Module) -> Dict[str, Any]:
     return out
 
 
+import logging as _logging
+
+# integer constants of the standard library that repository code uses by name (values read from the running interpreter)
+STDLIB_INT_CONSTS = {'logging.' + n: getattr(_logging, n) for n in ('NOTSET', 'DEBUG', 'INFO', 'WARNING', 'ERROR', 'CRITICAL')}
+
+
 def _const_eval(node, env):
     if isinstance(node, ast.Constant) and isinstance(node.value, (int, float, str, bool, type(None), bytes)):
         return node.value
     if isinstance(node, ast.Name) and node.id in env:
         return env[node.id]
+    if isinstance(node, ast.Attribute) and _dotted(node) in STDLIB_INT_CONSTS:
+        return STDLIB_INT_CONSTS[_dotted(node)]
     if isinstance(node, ast.UnaryOp) and isinstance(node.op, ast.USub):
         return -_const_eval(node.operand, env)
     if isinstance(node, ast.BinOp):
@@ -1356,6 +1364,8 @@ class Engine:
             name = base.name + '.' + attr
             if name in self.c.consts:
                 return self.c.consts[name]
+            if name in STDLIB_INT_CONSTS:
+                return STDLIB_INT_CONSTS[name]
             return SDotted(name)
         if isinstance(base, (SList, tuple, SDict)) or (isinstance(base, z3.ExprRef) and base.sort() != U):
             return ('boundmethod', base, attr)
@@ -1365,7 +1375,7 @@ class Engine:
             return ('boundmethod', base, attr)
         if isinstance(base, z3.ExprRef) and base.sort() == U:
             return self.attr_of_U(base, attr)
-        if isinstance(base, (str, int)):
+        if isinstance(base, (str, int, dict)):
             return ('boundmethod', base, attr)
         raise Undecided('attribute %s of %r' % (attr, base))
 
@@ -1490,6 +1500,8 @@ class Engine:
                 return z3.BoolVal(False)
             return z3.And(*[self.equal(x, y) for x, y in zip(a, b)]) if a else z3.BoolVal(True)
         ta, tb = type_of_value(a), type_of_value(b)
+        if (ta == 'bv64' and tb in ('int', 'bool', 'bv64')) or (tb == 'bv64' and ta in ('int', 'bool')):
+            return to_z3(a, 'bv64') == to_z3(b, 'bv64')
         if ta in ('int', 'bool', 'real') and tb in ('int', 'bool', 'real'):
             if ta == 'bool' and tb == 'bool':
                 return to_z3(a) == to_z3(b)
@@ -1737,6 +1749,8 @@ class Engine:
             raise Undecided('symbolic key into a constant dict')
         if isinstance(cont, tuple):
             if isinstance(idx, int):
+                if not -len(cont) <= idx < len(cont):
+                    raise PyRaise(SExc('IndexError'))
                 return cont[idx]
             raise Undecided('symbolic index into tuple')
         if isinstance(cont, SList):
@@ -1953,7 +1967,11 @@ class Engine:
         return z3.ForAll(vars_, body) if kind == 'forall' else z3.Exists(vars_, body)
 
     def call_builtin(self, name, node, st):
-        args = [self.ev(a, st) for a in node.args]
+        args = [self.ev_lenient(a, st) for a in node.args]
+        if any(isinstance(a, tuple) and a and a[0] == '*' for a in args):
+            # f(*xs): only an unmodelled callee tolerates an unexpanded argument list (its result is havocked anyway)
+            self.unmodelled.append(name)
+            return z3.Const(fresh_name('unmodelled_' + name.replace('.', '_')), U)
         if name == 'len':
             v = args[0]
             if isinstance(v, SDict):
@@ -2062,6 +2080,10 @@ class Engine:
     def call_method(self, recv, meth, node, st):
         args = [self.ev(a, st) for a in node.args]
         target = node.func.value
+        if isinstance(recv, tuple) and not (recv and recv[0] in ('range', 'boundmethod', 'lambda', '*')) and meth == 'append' and len(args) == 1:
+            # a list literal of heterogeneous values is kept as a Python tuple of symbolic values
+            self.assign(target, recv + (args[0],), st)
+            return None
         if isinstance(recv, SList):
             if meth == 'append':
                 et = recv.et or type_of_value(args[0])
@@ -2103,6 +2125,19 @@ class Engine:
                 if dflt is None:
                     raise Undecided('dict.get with a None default on a symbolic dict')
                 return from_z3(z3.If(recv.has(k), recv.val(k), to_z3(dflt, recv.vt)), recv.vt)
+        if isinstance(recv, dict) and meth == 'get' and args:
+            # a constant (module-level) dict looked up with a possibly symbolic key
+            k = args[0]
+            dflt = args[1] if len(args) > 1 else None
+            if isinstance(k, (int, str, bool)) or k is None:
+                return recv.get(k, dflt)
+            vals = list(recv.values()) + [dflt]
+            if not all(isinstance(v, int) and not isinstance(v, bool) for v in vals):
+                raise Undecided('constant dict .get with a symbolic key and non-integer values')
+            r = z3.IntVal(dflt)
+            for kk, vv in reversed(list(recv.items())):
+                r = z3.If(self.equal(k, kk), z3.IntVal(vv), r)
+            return r
         if isinstance(recv, SRecord) and meth == 'get' and args and isinstance(args[0], str):
             k = args[0]
             dflt = args[1] if len(args) > 1 else None
